@@ -50,7 +50,10 @@ EqClause(rec) ==
                  vb == Val(b, rec.vals[k], nocast)
              IN IF \E nm \in names : ~NoPoison(va[OutPos(a, nm)]) THEN "poison_a"
                 ELSE IF \E nm \in names : ~NoPoison(vb[OutPos(b, nm)]) THEN "poison_b"
-                ELSE IF \E nm \in names : va[OutPos(a, nm)] # vb[OutPos(b, nm)] THEN "value"
+                \* (equality of the denoted numbers: an exact 0 and the residue of 0.0 are
+                \* the same value; POISON was excluded above)
+                ELSE IF \E nm \in names : ~SameMod(va[OutPos(a, nm)], vb[OutPos(b, nm)])
+                     THEN "value"
                 ELSE IF Has(rec, "expect") /\
                         \E nm \in names : ~SameMod(va[OutPos(a, nm)], rec.expect[k][nm])
                      THEN "oracle"
